@@ -14,7 +14,8 @@ SPEC = {'id': 'C26',
                    'C26_files_not_dirs',
                    'C26_owner_dirs_apart',
                    'C26_rejected',
-                   'C26_rejected_rename'],
+                   'C26_rejected_rename',
+                    'C26_only_valid_names_reach_the_pool'],
  'partial_theorems': [],
  'counterexamples': ['C26_traversal_counterexample',
                      'C26_escape_counterexample',
